@@ -419,6 +419,9 @@ CHECKS["C19"]["units"].append(py_unit("filters", "filters-C19", ["--props", "C19
 CHECKS["C19"]["explanation"] += " Filtered reads: the C20 family of filter statements (balance / metadata / address sub-selects included), shared bucket and alone-in-bucket, is decided against a reference that only looks at this ledger's rows."
 
 
+CHECKS["C35"]["units"].append(py_unit("filters", "filters-C35", ["--props", "C35", "--resources", "accounts,volumes,aggregated,transactions"], timeout_s=3000))
+CHECKS["C35"]["explanation"] += " Filtered reads: for every non-default feature configuration, every single-leaf filter (and its negation) of the C20 family on accounts, volumes, aggregated balances and transactions, with and without a PIT, is either refused naming a feature the configuration lacks, or decided correct on the tables as that configuration populates them (metadata at a PIT reads the current metadata when the history feature is off)."
+
 CHECKS["C14"] = {
     "level": "other",
     "explanation": "What the code contributes to reference uniqueness is (a) the definition of the unique index, resolved from the migration files on every run (create / drop / rename followed in order), (b) the value the real InsertTransaction writes for a transaction without reference (captured SQL, executed by the DML executor), (c) the constraint name the Go code turns into ErrTransactionReferenceConflict (read from transactions.go). z3 decides over every content of a symbolic transactions table that the resolved index admits: no two transactions of one ledger share a non-empty reference; the index forbids nothing more (equal references in two ledgers are admitted); a transaction without reference is never subject to the index; the mapped constraint name is that unique index. The rollback of the losing writer and the error seen by the caller are covered by C07 (operation create_ref_conflict on the store model).",
